@@ -7,9 +7,13 @@ import (
 	"crypto/elliptic"
 	crand "crypto/rand"
 	"crypto/rsa"
+	"crypto/sha256"
+	"encoding/binary"
 	"encoding/json"
+	"io"
 	"math/rand"
 	"sync"
+	"sync/atomic"
 
 	"golang.org/x/crypto/ssh"
 
@@ -22,6 +26,59 @@ type Key struct {
 	Priv crypto.PrivateKey // *rsa.PrivateKey, *ecdsa.PrivateKey or *ed25519.PrivateKey (as x/crypto's agent expects)
 	Pub  ssh.PublicKey
 	Sgn  ssh.Signer
+	// SK: a security-key backed identity (sk-ssh-ed25519@openssh.com). Priv is then the
+	// ssh.Signer itself: such an identity cannot be marshalled into an add-identity
+	// request by x/crypto's client; wire.Agent's keyring accepts it on a direct Add.
+	SK bool
+}
+
+// skSigner produces genuine sk-ssh-ed25519@openssh.com signatures (the harness
+// plays the authenticator): Ed25519 over SHA256(application) || flags || counter || SHA256(data).
+type skSigner struct {
+	pub  ssh.PublicKey
+	priv ed25519.PrivateKey
+	app  string
+	ctr  atomic.Uint32
+}
+
+func (s *skSigner) PublicKey() ssh.PublicKey { return s.pub }
+func (s *skSigner) Sign(_ io.Reader, data []byte) (*ssh.Signature, error) {
+	ad, dd := sha256.Sum256([]byte(s.app)), sha256.Sum256(data)
+	rest := make([]byte, 5)
+	rest[0] = 1 // user presence
+	binary.BigEndian.PutUint32(rest[1:], s.ctr.Add(1))
+	msg := append(append(append([]byte{}, ad[:]...), rest...), dd[:]...)
+	return &ssh.Signature{Format: s.pub.Type(), Blob: ed25519.Sign(s.priv, msg), Rest: rest}, nil
+}
+
+var (
+	skOnce sync.Once
+	skPool []*Key
+)
+
+// SKPool returns two security-key backed identities (kept out of Pool: x/crypto's keyring cannot hold them).
+func SKPool() []*Key {
+	skOnce.Do(func() {
+		for i := 0; i < 2; i++ {
+			pub, priv, _ := ed25519.GenerateKey(crand.Reader)
+			app := "ssh:"
+			if i == 1 {
+				app = "ssh:verif"
+			}
+			blob := ssh.Marshal(struct {
+				Name string
+				Key  []byte
+				App  string
+			}{ssh.KeyAlgoSKED25519, []byte(pub), app})
+			pk, err := ssh.ParsePublicKey(blob)
+			if err != nil {
+				panic(err)
+			}
+			sg := &skSigner{pub: pk, priv: priv, app: app}
+			skPool = append(skPool, &Key{Name: "sk-ed25519", Priv: sg, Pub: pk, Sgn: sg, SK: true})
+		}
+	})
+	return skPool
 }
 
 var (
